@@ -96,6 +96,9 @@ def run(name, props):
     meta = json.load(open(os.path.join(d, "meta.json")))
     if not props:
         props = [meta["property"]]
+    if meta.get("superseded"):
+        print("skipped (superseded):", meta["superseded"][:100])
+        return {}
     rc, out = sh(["git", "-C", REPO, "status", "--porcelain"])
     assert out.strip() == "", "/repo is not clean: " + out
     rc, out = sh(["git", "-C", REPO, "apply", os.path.join(d, "patch.diff")])
